@@ -119,6 +119,18 @@ structure Affine (α : Type) where
   yOffset : α
   deriving DecidableEq, Repr
 
+/-- abstract numeric operations, only used by `tools/extract_kurbo_conv.py` to express a condition the source may put
+    in front of the transform formula (`(a - b).abs() < f64::EPSILON`, `a == 1.0`, …); the model itself has none -/
+structure Num (α : Type) where
+  zero : α
+  one : α
+  eps : α
+  sub : α → α → α
+  abs : α → α
+  lt : α → α → Bool
+  le : α → α → Bool
+  beq : α → α → Bool
+
 /-- `ContourPoint::transform` -/
 def transform [Add α] [Mul α] (t : Affine α) (x y : α) : α × α :=
   (t.xScale * x + t.yxScale * y + t.xOffset, t.xyScale * x + t.yScale * y + t.yOffset)
